@@ -102,7 +102,11 @@ def _norm2(v):
     return sum_(t * (t.conjugate() if hasattr(t, "conjugate") else t) for t in v)
 
 
-def check_result(B, tag, energy, status, ctl, crit, M, b, g0norm2, limit):
+def check_result(B, tag, energy, status, ctl, crit, M, b, e_start, limit, P=None):
+    """The residual guarantee is split into two obligations that together imply it:
+    (i) the energy's gradient equals the residual A x - b recomputed independently from the returned
+    position (a polynomial identity, decided by the rewriter), and (ii) the controller's criterion holds
+    for that very gradient object (or it vanishes)."""
     x = list(flat_of(energy.position))
     res = [u - v for u, v in zip(_matvec(M, x), b)]           # independently recomputed residual A x - b
     B.eq(f"{tag}energy.gradient == A x - b at the returned position", flat_of(energy.gradient), res)
@@ -111,48 +115,38 @@ def check_result(B, tag, energy, status, ctl, crit, M, b, g0norm2, limit):
     B.eq(f"{tag}energy.value == 1/2 x^H A x - Re b^H x", [energy.value], [val])
     B.is_true(f"{tag}status is not ERROR for a positive definite system", status != ctl.ERROR)
     B.is_true(f"{tag}status is CONVERGED", status == ctl.CONVERGED)
-    r2 = _norm2(res)
-    r2 = r2.real if hasattr(r2, "real") else r2
     at_limit = limit is not None and ctl._itcount >= limit
     if at_limit:
         B.note("returned at the iteration limit")
         return
     kind, tol = crit
-    if B.mode == "sym":
-        zero_res = (r2 == 0)
-    else:
-        zero_res = bool(abs(r2) == 0)
+    g = energy.gradient
+    pg = g if P is None else P(g)
+    gam = g.s_vdot(pg).real                    # the quantity CG tests against 0 (same construction => same term)
+    zero_res = (gam == 0)
     if kind == "abs":
-        ok = (r2 <= tol * tol) | zero_res
+        ok = (energy.gradient_norm <= tol) | zero_res
     elif kind == "rel":
-        ok = (r2 <= tol * tol * g0norm2) | zero_res
+        ok = (energy.gradient_norm <= tol * e_start.gradient_norm) | zero_res
     elif kind == "inf":
-        # ||g||_inf <= tol * |E|
-        av = abs(val)
-        comps = None
-        for t in res:
-            a_t = abs(t) if not hasattr(t, "imag") or B.mode != "sym" else None
-            c = (abs(t) <= tol * av) if a_t is not None else ((t.real * t.real + t.imag * t.imag) <= tol * tol * av * av)
-            comps = c if comps is None else (comps & c)
-        ok = comps | zero_res
+        ok = (g.norm(np.inf) / abs(energy.value) <= tol) | zero_res
     elif kind in ("absdelta", "reldelta"):
         h = ctl._seen
-        last = sc._lift(h[-1]) if B.mode == "sym" else h[-1]
+        last = h[-1]
+        seen_last = (last == energy.value)
         B.holds(f"{tag}last energy seen by the controller is the energy of the returned position (unless the residual is 0)",
-                (last == val) | zero_res if B.mode == "sym" else bool(abs(last - val) <= 1e-9 * max(abs(val), 1e-300)) or zero_res)
+                seen_last | zero_res)
         if len(h) >= 2:
             d = abs(h[-2] - h[-1])
             if kind == "absdelta":
                 ok = (d < tol) | zero_res
             else:
-                m = abs(h[-2])
-                m2 = abs(h[-1])
-                ok = (d < tol * m) | (d < tol * m2) | zero_res
+                ok = (d / max(abs(h[-2]), abs(h[-1])) < tol) | zero_res
         else:
             ok = zero_res
     else:
         ok = zero_res
-    B.holds(f"{tag}CONVERGED before the limit only if the criterion holds for the recomputed residual (or residual is 0)", ok)
+    B.holds(f"{tag}CONVERGED before the limit only if the criterion holds for the returned gradient (or it vanishes)", ok)
 
 
 def h_cg(B, n, kind, ctrl, limit, level, nreset, precond, cplx, reuse=False):
@@ -171,11 +165,10 @@ def h_cg(B, n, kind, ctrl, limit, level, nreset, precond, cplx, reuse=False):
             x0 = B.values(f"x{k}", (n,), cplx)
             energy = ift.QuadraticEnergy(field_of(dom, x0), A, field_of(dom, b))
             g0 = [u - v for u, v in zip(_matvec(M, list(x0)), b)]
-            g0n2 = _norm2(g0)
-            g0n2 = g0n2.real if hasattr(g0n2, "real") else g0n2
+            B.eq((f"solve {k}: " if reuse else "") + "starting energy.gradient == A x0 - b", flat_of(energy.gradient), g0)
             cg = ift.ConjugateGradient(ctl, nreset=nreset)
             e2, status = cg(energy, preconditioner=P)
-            check_result(B, f"solve {k}: " if reuse else "", e2, status, ctl, crit, M, list(b), g0n2, limit)
+            check_result(B, f"solve {k}: " if reuse else "", e2, status, ctl, crit, M, list(b), energy, limit, P)
 
 
 def h_inversion(B, n, mode, limit, cplx):
@@ -220,45 +213,47 @@ def h_inversion(B, n, mode, limit, cplx):
 
 
 def scenarios(tier, seed):
-    out = []
     base = dict(n=2, kind="diag", nreset=20, precond=False, cplx=False, level=1)
+    quick, thorough = [], []
     for ctrl in ("gradnorm_abs", "gradnorm_rel", "gradinf", "absdelta", "reldelta", "limit_only"):
         for limit in (1, 2, 3):
-            out.append(("cg", dict(base, ctrl=ctrl, limit=limit)))
+            heavy = limit == 3 or (limit == 2 and ctrl in ("reldelta", "gradinf"))
+            (thorough if heavy else quick).append(("cg", dict(base, ctrl=ctrl, limit=limit)))
     # recomputed residual every step / every second step
-    for nreset in (1, 2):
-        out.append(("cg", dict(base, ctrl="gradnorm_abs", limit=3, nreset=nreset)))
-    out.append(("cg", dict(base, ctrl="gradnorm_abs", limit=3, level=2)))
-    out.append(("cg", dict(base, ctrl="absdelta", limit=3, level=2)))
-    out.append(("cg", dict(base, ctrl="gradnorm_abs", limit=2, precond=True)))
-    out.append(("cg", dict(base, ctrl="gradnorm_rel", limit=2, precond=True)))
-    out.append(("cg", dict(base, ctrl="gradnorm_abs", limit=2, cplx=True)))
-    out.append(("cg", dict(base, ctrl="gradnorm_rel", limit=2, cplx=True)))
-    out.append(("cg", dict(base, ctrl="gradnorm_abs", limit=None)))           # no limit: exact termination after n steps
-    out.append(("cg", dict(base, n=1, ctrl="gradnorm_abs", limit=None)))
-    # the same controller object used for two solves
+    quick.append(("cg", dict(base, ctrl="gradnorm_abs", limit=2, nreset=1)))
+    thorough.append(("cg", dict(base, ctrl="gradnorm_abs", limit=3, nreset=1)))
+    thorough.append(("cg", dict(base, ctrl="gradnorm_abs", limit=3, nreset=2)))
+    quick.append(("cg", dict(base, ctrl="gradnorm_abs", limit=2, level=2)))
+    thorough.append(("cg", dict(base, ctrl="gradnorm_abs", limit=3, level=2)))
+    thorough.append(("cg", dict(base, ctrl="absdelta", limit=3, level=2)))
+    quick.append(("cg", dict(base, ctrl="gradnorm_abs", limit=2, precond=True)))
+    thorough.append(("cg", dict(base, ctrl="gradnorm_rel", limit=2, precond=True)))
+    for ctrl in ("gradnorm_abs", "gradnorm_rel"):
+        quick.append(("cg", dict(base, n=1, ctrl=ctrl, limit=2, cplx=True)))
+        quick.append(("cg", dict(base, ctrl=ctrl, limit=1, cplx=True)))
+        thorough.append(("cg", dict(base, ctrl=ctrl, limit=2, cplx=True)))
+    quick.append(("cg", dict(base, n=1, ctrl="gradnorm_abs", limit=None)))     # no limit: exact termination after n steps
+    thorough.append(("cg", dict(base, ctrl="gradnorm_abs", limit=None)))
+    # the same controller object used for two consecutive solves
     for ctrl in ("gradnorm_rel", "gradnorm_abs", "absdelta"):
-        out.append(("cg", dict(base, n=1, ctrl=ctrl, limit=2, reuse=True)))
-    out.append(("cg", dict(base, ctrl="gradnorm_rel", limit=1, reuse=True)))
+        quick.append(("cg", dict(base, n=1, ctrl=ctrl, limit=2, reuse=True)))
+    quick.append(("cg", dict(base, ctrl="gradnorm_rel", limit=1, reuse=True)))
+    thorough.append(("cg", dict(base, ctrl="gradnorm_rel", limit=2, reuse=True)))
     for mode in ("inverse", "adjoint_inverse"):
-        out.append(("inversion", {"n": 2, "mode": mode, "limit": 3, "cplx": False}))
-        out.append(("inversion", {"n": 1, "mode": mode, "limit": 2, "cplx": True}))
-    if tier == "thorough":
-        out.append(("cg", dict(base, kind="dense", ctrl="gradnorm_abs", limit=2)))
-        out.append(("cg", dict(base, kind="dense", ctrl="gradnorm_abs", limit=3)))
-        out.append(("cg", dict(base, kind="dense", ctrl="gradnorm_abs", limit=2, cplx=True)))
-        out.append(("cg", dict(base, ctrl="gradnorm_abs", limit=3, precond=True)))
-        out.append(("cg", dict(base, ctrl="gradnorm_abs", limit=3, cplx=True)))
-        out.append(("cg", dict(base, n=3, ctrl="gradnorm_abs", limit=2)))
-        out.append(("cg", dict(base, n=3, ctrl="gradnorm_abs", limit=3)))
-        out.append(("cg", dict(base, ctrl="gradnorm_rel", limit=2, reuse=True)))
-        out.append(("inversion", {"n": 2, "mode": "inverse", "limit": 3, "cplx": True}))
-    return out
+        quick.append(("inversion", {"n": 2, "mode": mode, "limit": 2, "cplx": False}))
+        quick.append(("inversion", {"n": 1, "mode": mode, "limit": 2, "cplx": True}))
+        thorough.append(("inversion", {"n": 2, "mode": mode, "limit": 3, "cplx": False}))
+    thorough.append(("cg", dict(base, kind="dense", ctrl="gradnorm_abs", limit=2)))
+    thorough.append(("cg", dict(base, kind="dense", ctrl="gradnorm_abs", limit=2, cplx=True)))
+    thorough.append(("cg", dict(base, n=3, ctrl="gradnorm_abs", limit=2)))
+    thorough.append(("cg", dict(base, n=3, ctrl="gradnorm_abs", limit=3)))
+    thorough.append(("inversion", {"n": 2, "mode": "inverse", "limit": 3, "cplx": True}))
+    return quick if tier == "quick" else quick + thorough
 
 
 HARNESSES = {"cg": h_cg, "inversion": h_inversion}
-OPTS = {"quick": {"max_paths": 200, "branch_timeout_ms": 20000, "obl_timeout_ms": 30000},
-        "thorough": {"max_paths": 600, "branch_timeout_ms": 60000, "obl_timeout_ms": 120000, "budget_s": 1500}}
+OPTS = {"quick": {"max_paths": 200, "branch_timeout_ms": 20000, "obl_timeout_ms": 30000, "budget_s": 400, "jobs": 10},
+        "thorough": {"max_paths": 600, "branch_timeout_ms": 60000, "obl_timeout_ms": 120000, "budget_s": 2400, "jobs": 8}}
 
 META = {
     "level": "other",
